@@ -110,6 +110,21 @@ def simplify(sc):
             yield c
 
 
+def clip_estimates(data):
+    """Candidate sigma-clipped (3 sigma, 5 iterations) re-estimates of the data: an own float64
+    implementation and astropy's (trusted) in the data's own precision.  Clipping decisions on a
+    handful of float32 pixels may legitimately differ between the two; either is accepted."""
+    from astropy.stats import sigma_clip
+    out = [my_sigma_clip_stats(data)]
+    c = sigma_clip(np.asarray(data), sigma=3, maxiters=5, masked=False)
+    out.append((float(np.mean(c)), float(np.std(c))))
+    return out
+
+
+def matches_reestimate(nm, ns, data, rel):
+    return any(_close(nm, m2, rel=rel) and _close(ns, s2, rel=rel) for m2, s2 in clip_estimates(data))
+
+
 def my_sigma_clip_stats(data, sigma=3.0, iters=5):
     x = np.asarray(data, dtype=np.float64).ravel()
     for _ in range(iters):
@@ -217,8 +232,7 @@ def execute(sc, ctx):
                     else:
                         okp, x_mean, x_std, x_min = _table_member(op, nm, ns, means, stds, mins, k, g, ctx)
                     if had_signal_only and np.any(data_before):
-                        m2, s2 = my_sigma_clip_stats(fr.data)
-                        okp = okp or (_close(nm, m2, rel=1e-9) and _close(ns, s2, rel=1e-9))
+                        okp = okp or matches_reestimate(nm, ns, fr.data, 1e-9 if fr.data.dtype == np.float64 else 1e-4)
                     if not ctx.check(okp, "estimates", "C11/estimates/first_noise_not_parameters/%s%s" % (
                             dist, "/table" if kind == "from_obs" else ""),
                             lambda: "noise_mean %r noise_std %r after first noise; parameters %r %r (k=%d)" % (nm, ns, x_mean, x_std, k)):
@@ -227,7 +241,7 @@ def execute(sc, ctx):
                     ctx.hit("later_noise_reestimated")
                     m2, s2 = my_sigma_clip_stats(fr.data)
                     rel = 1e-9 if fr.data.dtype == np.float64 else 1e-4      # float32 frames accumulate in float32
-                    if not ctx.check(_close(nm, m2, rel=rel) and _close(ns, s2, rel=rel), "estimates",
+                    if not ctx.check(matches_reestimate(nm, ns, fr.data, rel), "estimates",
                                      "C11/estimates/later_noise_not_reestimated/%s" % dist,
                                      lambda: "noise_mean %r noise_std %r; sigma-clipped re-estimate %r %r" % (nm, ns, m2, s2)):
                         return
